@@ -418,7 +418,8 @@ NMsgs == 1                              \* messages per mailbox
 
 \* kind "mapfile": a named gophermap FILE n.gophermap (served as a menu by BuckGophermapHandler) with a relative,
 \* a description-only and an absolute line; as subject it sits in the root and points at /zz, as inner entry of a
-\* directory it points at its sibling "leaf"
+\* directory (file c.m.gophermap) it points at its sibling file c.m, so that the names a map links to range over the
+\* whole inner alphabet (line-boundary characters such as a lone CR included)
 FsName(c) == IF c.k = "zip" THEN c.n \o ".zip" ELSE IF c.k = "mapfile" THEN c.n \o ".gophermap" ELSE c.n
 Subj(c) == "/" \o FsName(c)
 InnerName(c) == IF c.ik = "mapfile" THEN c.m \o ".gophermap" ELSE c.m
@@ -431,6 +432,8 @@ RECURSIVE DeepPath(_, _)
 DeepPath(c, i) == IF i = 0 THEN "" ELSE DeepPath(c, i - 1) \o "/" \o c.n
 DeepLevel(c, s) == LET ls == {i \in 1..DeepDepth : DeepPath(c, i) = s} IN IF ls = {} THEN 0 ELSE CHOOSE i \in ls : TRUE
 
+HasSiteMap(c) == c.k \in {"dir", "mapdir"}
+SiteMapSel == "/zm.gophermap"
 Stat(c, sel) ==          \* "dir" / "file" / "none": VFS_Real.stat(root + selector minus one trailing slash)
     LET s == IF Len(sel) > 0 /\ Last1(sel) = "/" THEN SubSeq(sel, 1, Len(sel) - 1) ELSE sel IN
     IF s = "" THEN "dir"
@@ -438,7 +441,8 @@ Stat(c, sel) ==          \* "dir" / "file" / "none": VFS_Real.stat(root + select
                                ELSE IF s = DeepPath(c, DeepDepth) \o "/leaf" \/ s \in Anchors THEN "file" ELSE "none")
     ELSE IF s = Subj(c) THEN (IF c.k \in {"dir", "mapdir", "maildir"} THEN "dir" ELSE "file")
     ELSE IF c.k \in {"dir", "mapdir"} /\ s = InnerSel(c) THEN (IF c.ik = "mapfile" THEN "file" ELSE c.ik)
-    ELSE IF c.k = "dir" /\ c.ik = "mapfile" /\ s = Subj(c) \o "/leaf" THEN "file"
+    ELSE IF c.k = "dir" /\ c.ik = "mapfile" /\ s = Subj(c) \o "/" \o c.m THEN "file"       \* the file the inner map links to
+    ELSE IF HasSiteMap(c) /\ s = SiteMapSel THEN "file"
     ELSE IF c.k \in {"dir", "mapdir"} /\ c.ik = "dir" /\ s = InnerSel(c) \o "/leaf" THEN "file"
     ELSE IF c.k = "mapdir" /\ s = Subj(c) \o "/gophermap" THEN "file"
     ELSE IF c.k = "maildir" /\ s \in {Subj(c) \o "/new", Subj(c) \o "/cur", Subj(c) \o "/tmp"} THEN "dir"
@@ -514,11 +518,18 @@ TypeOf(c, sel, hl) == LET r == Serve(c, sel, hl) IN
                       IF IsMapFile(c, sel, hl) /\ "mapfile" \notin Fixes THEN "0"
                       ELSE IF r.ok /\ r.obj = "menu" THEN "1" ELSE "0"
 \* the lines of the map files gamma writes: relative selector, description only (selector = display string), absolute
-MapLines(base, target) == {Entry("0", "relative", base \o "/" \o target), Entry("0", target, base \o "/" \o target),
-                           Entry("0", "absolute", "/zz")}
+MapLines(base, target) ==             \* gophermap.py: a selector starting with "URL:" is not made relative
+    LET rel == IF StartsWith(target, "URL:") THEN target ELSE base \o "/" \o target IN
+    {Entry("0", "relative", rel), Entry("0", target, rel), Entry("0", "absolute", "/zz")}
 
+\* site map: every directory tree also has a named map file in the root that links (absolute selectors) straight to
+\* the children and grandchildren, so each deep object is advertised by a listing whose own reachability does not
+\* depend on the object's parent.  A gophermap field cannot carry leading/trailing blanks, TAB or LF.
+SiteOk(x) == Strip(x) = x /\ Find(x, cTAB) = 0 /\ Find(x, cLF) = 0
+SiteTargets(c) == {x \in {InnerSel(c)} \cup (IF c.ik = "dir" THEN {InnerSel(c) \o "/leaf"} ELSE {})
+                              \cup (IF c.ik = "mapfile" THEN {Subj(c) \o "/" \o c.m} ELSE {}) : SiteOk(x)}
 MaildirParts(c) == {Subj(c) \o "/new", Subj(c) \o "/cur", Subj(c) \o "/tmp"}
-Dirs(c, hl) == {"/"} \cup (IF Serve(c, Subj(c), hl).obj = "menu" THEN {Subj(c)} ELSE {})
+Dirs(c, hl) == {"/"} \cup (IF HasSiteMap(c) THEN {SiteMapSel} ELSE {}) \cup (IF Serve(c, Subj(c), hl).obj = "menu" THEN {Subj(c)} ELSE {})
                      \cup (IF c.k \in {"dir", "mapdir", "zip"} /\ c.ik \in {"dir", "mapfile"}
                               /\ Serve(c, InnerSel(c), hl).obj = "menu" THEN {InnerSel(c)} ELSE {})
                      \cup (IF c.k = "maildir" /\ Serve(c, Subj(c), hl).by = "UMNDirHandler" THEN MaildirParts(c) ELSE {})
@@ -526,6 +537,8 @@ Dirs(c, hl) == {"/"} \cup (IF Serve(c, Subj(c), hl).obj = "menu" THEN {Subj(c)} 
 
 ListingAll(c, d, hl) ==
     IF d = "/" THEN {Entry(TypeOf(c, Subj(c), hl), FsName(c), Subj(c))} \cup {Entry("0", "zz", a) : a \in Anchors}
+                    \cup (IF HasSiteMap(c) THEN {Entry(TypeOf(c, SiteMapSel, hl), "zm.gophermap", SiteMapSel)} ELSE {})
+    ELSE IF HasSiteMap(c) /\ d = SiteMapSel THEN {Entry(TypeOf(c, x, hl), "x", x) : x \in SiteTargets(c)}
     ELSE IF c.k = "deep" THEN (IF DeepLevel(c, d) = DeepDepth THEN {Entry("0", "leaf", d \o "/leaf")}
                                ELSE {Entry("1", c.n, d \o "/" \o c.n)})
     ELSE IF d = Subj(c) THEN
@@ -539,10 +552,10 @@ ListingAll(c, d, hl) ==
           [] by = "UMNDirHandler" ->
                 IF c.k = "maildir" THEN {Entry("1", SubSeq(x, Len(Subj(c)) + 2, Len(x)), x) : x \in MaildirParts(c)}
                 ELSE {Entry(TypeOf(c, InnerSel(c), hl), InnerName(c), InnerSel(c))}
-                     \cup (IF c.ik = "mapfile" THEN {Entry("0", "leaf", Subj(c) \o "/leaf")} ELSE {})
+                     \cup (IF c.ik = "mapfile" THEN {Entry("0", c.m, Subj(c) \o "/" \o c.m)} ELSE {})
           [] OTHER -> {}
     ELSE IF c.k = "maildir" THEN (IF d = Subj(c) \o "/new" THEN {Entry("0", "msg1", d \o "/msg1")} ELSE {})
-    ELSE IF c.ik = "mapfile" THEN MapLines(Subj(c), "leaf")
+    ELSE IF c.ik = "mapfile" THEN MapLines(Subj(c), c.m)
     ELSE {Entry("0", "leaf", d \o "/leaf")}
 
 \* the listing of d is produced by whichever handler serves d (Serve(..).by), exactly as for a request.
@@ -562,6 +575,7 @@ Advertised(p, e) == IF p \in GopherViews \cup {"H", "HS"} THEN (IF e.type = "1" 
 BaseRef(p, c, d, hl) ==
     IF d = "/" THEN RootRef(p)
     ELSE IF c.k = "deep" THEN RefOf(p, Target(p, Entry("1", c.n, d)), RootRef(p))      \* references are path-absolute
+    ELSE IF HasSiteMap(c) /\ d = SiteMapSel THEN RefOf(p, Target(p, Entry("1", "zm.gophermap", d)), RootRef(p))
     ELSE IF d = Subj(c) THEN RefOf(p, Target(p, Entry("1", FsName(c), Subj(c))), RootRef(p))
     ELSE RefOf(p, Target(p, Entry("1", c.m, InnerSel(c))),
                RefOf(p, Target(p, Entry("1", FsName(c), Subj(c))), RootRef(p)))
